@@ -18,6 +18,15 @@ DATES = ["2019-01", "2019-04", "2019-07", "2019-10", "2020-01", "2020-04", "2020
          "2020-10", "2021-01", "2021-04"]
 
 
+def stratum(pid, i, k, n):
+    """Index in range(n) for the k-th secondary stratum of unit i: a fixed pseudo-random
+    assignment, so that secondary strata mix with the primary round-robin (templates x
+    weights) even when a quick run is shorter than the full product of all strata."""
+    import zlib
+
+    return (zlib.crc32(("%s/%s/%s" % (pid, i, k)).encode()) >> 4) % n
+
+
 class G:
     def __init__(self, seed):
         self.r = random.Random(seed)
